@@ -732,6 +732,8 @@ def rand_irreducible_own(rng, deg, bound, monic):
         if irreducible_own(f): return f
     return None
 
+PROFILES = ('debug', 'release')
+
 def cases(rng, tier):
     th = tier == 'thorough'
     limit = 10 ** 12 if th else 10 ** 10
@@ -824,6 +826,8 @@ def cases(rng, tier):
         out.append(Case('ib_find', line('ib_find', f), nontrivial=False, tag='edge'))
     for f in edge[:8]:
         out.append(Case('cli_integral_basis', line('cli_integral_basis', f), model=line('ib_find', f), compare=compare_cli, nontrivial=False, tag='cli:edge'))
+    # a slice of the cases again on the release build of the implementation (wrapping arithmetic, debug assertions off)
+    out += lib.release_slice(out, rng, 0.1, mode_ops=('ib_find', 'ib_find_many'), plain_ops=())
     return out
 
 def step_supported():
